@@ -10,6 +10,7 @@ import (
 	"flag"
 	"fmt"
 	"os"
+	"sort"
 	"strings"
 	"time"
 
@@ -20,7 +21,8 @@ import (
 
 type exec struct {
 	points  []verifsched.ChoicePoint
-	choices []int
+	choices []int // relative to the default schedule's order of alternatives (0 = default)
+	raw     []int // indexes into ChoicePoint.Enabled: replayable without knowing the policy
 	msg     string
 	class   string
 	res     verifsched.Result
@@ -58,6 +60,7 @@ var (
 
 func runOnce(prefix []int) *exec {
 	x := &exec{}
+	last := 0 // id of the goroutine chosen at the previous point (round-robin policy)
 	chooser := func(p verifsched.ChoicePoint) int {
 		i := len(x.points)
 		c := 0
@@ -70,6 +73,24 @@ func runOnce(prefix []int) *exec {
 		}
 		x.points = append(x.points, p)
 		x.choices = append(x.choices, c)
+		if roundRobin {
+			// alternatives in cyclic id order after the goroutine that ran last: the default (choice 0)
+			// hands the processor to the next goroutine at every scheduling point
+			order := make([]int, len(p.Enabled))
+			for k := range order {
+				order[k] = k
+			}
+			key := func(id int) int {
+				if id > last {
+					return id - last
+				}
+				return id - last + 1<<30
+			}
+			sort.Slice(order, func(a, b int) bool { return key(p.Enabled[order[a]]) < key(p.Enabled[order[b]]) })
+			c = order[c]
+		}
+		last = p.Enabled[c]
+		x.raw = append(x.raw, c)
 		return c
 	}
 	var env *scen.Env
@@ -128,6 +149,10 @@ func (x *exec) preemptionsBefore(i int) int {
 
 var deviationMode bool
 
+// roundRobin selects the second default schedule: switch to the next goroutine (cyclic id order) at every
+// scheduling point, instead of letting the running goroutine continue. Deviations are counted against it.
+var roundRobin bool
+
 func record(x *exec) bool {
 	o.Executions++
 	o.Points += int64(len(x.points))
@@ -150,7 +175,7 @@ func record(x *exec) bool {
 			}
 		}
 		o.Violation = x.msg
-		o.Schedule = x.choices
+		o.Schedule = x.raw
 		for _, p := range x.points {
 			o.Labels = append(o.Labels, p.Label)
 		}
@@ -158,7 +183,7 @@ func record(x *exec) bool {
 	}
 	o.Outcomes[x.class]++
 	if findClass != "" && strings.Contains(x.class, findClass) && o.Found == nil {
-		o.Found = append([]int{}, x.choices...)
+		o.Found = append([]int{}, x.raw...)
 	}
 	return true
 }
@@ -215,6 +240,7 @@ func main() {
 	flag.Int64Var(&maxExec, "maxexec", 0, "execution cap")
 	prefixFlag := flag.String("prefix", "", "comma separated choice prefix: explore only the subtree below it")
 	flag.BoolVar(&deviationMode, "deviations", false, "bound every departure from the default schedule (delay bounding), not only preemptions")
+	flag.BoolVar(&roundRobin, "rr", false, "default schedule = round robin (implies -deviations)")
 	flag.StringVar(&findClass, "find", "", "debugging aid: report the first schedule whose outcome class contains this text")
 	flag.BoolVar(&planOnly, "plan", false, "run the prefix execution only and list its child prefixes")
 	flag.Parse()
@@ -225,6 +251,9 @@ func main() {
 		os.Exit(2)
 	}
 	syncGran = *gran == "sync"
+	if roundRobin {
+		deviationMode = true
+	}
 	o = out{Scenario: *name, Granularity: *gran, Bound: *bound, Outcomes: map[string]int{}}
 	start := time.Now()
 	deadline = start.Add(*limit)
@@ -238,7 +267,7 @@ func main() {
 		x := runOnce(pre)
 		o.Executions = 1
 		o.Violation = x.msg
-		o.Schedule = x.choices
+		o.Schedule = x.raw
 		if x.class != "" {
 			o.Outcomes[x.class]++
 		}
